@@ -1,4 +1,4 @@
-CONSTANTS Mode = "static"  MaxDepth = 0  GrowModes = {}
+CONSTANTS Mode = "static"  MaxDepth = 0  FlatWidth = 3  LeafMode = "full"  GrowModes = {}
 SPECIFICATION Spec
 INVARIANT LawsThenEmit
 CHECK_DEADLOCK FALSE
